@@ -71,12 +71,14 @@ Definition cleanup (force : bool) (c : config) (now : Z) (s : state) : state * l
   ({| seqs := sqs; events := em; lastSeq := last; hasLast := has; closed := closed s |},
    outs ++ (if lost >? 0 then [Lost lost] else [])).
 
-Inductive op := Push (m : option msg) (now : Z) | Maintain (now : Z) | Close.
+(* Push carries the two clock readings of one PushMessage call: the one Put takes
+   for the expiry of a newly opened event, and the one CleanUp's IsExpired takes. *)
+Inductive op := Push (m : option msg) (tput tclean : Z) | Maintain (now : Z) | Close.
 
 Definition step (c : config) (s : state) (o : op) : state * list out :=
   match o with
-  | Push None _ => (s, [])
-  | Push (Some m) now => cleanup false c now (put c now m s)
+  | Push None _ _ => (s, [])
+  | Push (Some m) tput tclean => cleanup false c tclean (put c tput m s)
   | Maintain now => if closed s then (s, [Ret false]) else let '(s', o) := cleanup false c now s in (s', o ++ [Ret true])
   | Close => if closed s then (s, [Ret false])
              else let '(s', o) := cleanup true c 0 {| seqs := seqs s; events := events s; lastSeq := lastSeq s; hasLast := hasLast s; closed := true |} in (s', o ++ [Ret true])
@@ -102,7 +104,7 @@ Fixpoint chk_outs (U : list msg) (outs : list out) : option (list msg) :=
   | _ :: r => chk_outs U r
   end.
 Definition pushU (U : list msg) (o : op) :=
-  match o with Push (Some m) _ => if mty m =? AUDIT_EOE then U else U ++ [m] | _ => U end.
+  match o with Push (Some m) _ _ => if mty m =? AUDIT_EOE then U else U ++ [m] | _ => U end.
 Fixpoint chk_C01 (U : list msg) (ops : list op) (tr : list (list out)) : bool :=
   match ops, tr with
   | [], [] => true
